@@ -180,13 +180,13 @@ def coq_counter(ctx):
 
 def run(ctx):
     cbs, funcs, muts, txt = gen_callbacks(ctx)
+    cres = gen_c(ctx, cbs)          # both generated files before the proofs are built
     pr = ctx.prove()
     ctx.cov["trusted_base"] = ["Coq 8.16.1 kernel + vm_compute", "gen/gen_vmguard translator and its reviewed mutator / restore lists",
                                "RunLua abstraction of executor.call", "Python scanner of the C modules", "read-only SQLite connection for queries"]
     ctx.assumptions = ["amounts are non-negative or fork version >= 5 (F13 otherwise)",
                        "contract code reaches the state only through the exported callbacks (LuaJIT sandbox)",
                        "the VM calls luaViewStart / luaViewEnd in matched pairs (the only counter operations outside executor.call)"]
-    cres = gen_c(ctx, cbs)
     ctx.coq_make(["Gen/CCallbacks.vo", "VmGuard/CSide.vo"])
     # ---- paths
     # one evaluation over every read-only context; split by the amount hypothesis afterwards
